@@ -86,13 +86,18 @@ def perturb_same_type(rng, v, T):
 
     def change(x):
         if sub_t == "anyobj" and x[0] == "a":
-            k = rng.randrange(3)
+            k = rng.randrange(4)
             fields = list(x[1])
             if k == 0:
                 extra = next((q for q in G.KEYS if q not in dict(fields)), "zz")
                 return ("a", fields + [(extra, G.gen_any_value(rng, 1))])
             if k == 1 and fields:
                 del fields[rng.randrange(len(fields))]
+                return ("a", fields)
+            if k == 3 and fields:
+                # the same number of fields, the same values, one key spelled differently
+                i = rng.randrange(len(fields))
+                fields[i] = (next((q for q in G.KEYS if q not in dict(fields)), "zz"), fields[i][1])
                 return ("a", fields)
             if fields:
                 i = rng.randrange(len(fields))
@@ -108,7 +113,12 @@ def perturb_same_type(rng, v, T):
                         i = rng.choice(inner)
                         fields[i] = (fields[i][0], mut(fields[i][1]))
                         return (y[0], fields)
-                    if fields and rng.random() < 0.5:
+                    r3 = rng.random()
+                    if fields and r3 < 0.33:
+                        # same arity, other key set (a lookup of a key of one object in the other finds nothing)
+                        i = rng.randrange(len(fields))
+                        fields[i] = (next((q for q in G.KEYS if q not in dict(fields)), "zz"), fields[i][1])
+                    elif fields and r3 < 0.66:
                         del fields[rng.randrange(len(fields))]
                     else:
                         extra = next((q for q in G.KEYS if q not in dict(fields)), "zz")
